@@ -127,6 +127,23 @@ Proof.
                 (proj2 (proj2 (proj2 (proj2 (proj2 legacy_events_do_not_add_up))))))))))).
 Qed.
 
+(** The consumers remove the [left] members BEFORE inserting the [joined] ones.  The order
+    matters: an address change carries one node id in both lists.  Applied joined-first (seeded
+    change C16/B) the freshly inserted peer is removed again and the consumer ends up without
+    it, although it was handed every change in order. *)
+Definition apply_joined_first (l : live_map) (c : change) : live_map :=
+  let l1 := fold_left (fun acc m => live_insert (m_id m) (m_addr m) acc) (ch_joined c) l in
+  fold_left (fun acc m => live_remove (m_id m) acc) (ch_left c) l1.
+
+Theorem C16_joined_before_left_refuted :
+  let prev := [(0, 65535, 0); (1, 10, 1)] in
+  let new := [(0, 65535, 0); (1, 11, 1)] in      (* node 1 came back under another address *)
+  let l := netset 0 prev in
+  apply l (differ 0 prev new) = [(1, 11)] /\
+  apply_joined_first l (differ 0 prev new) = [] /\
+  netset 0 new = [(1, 11)].
+Proof. vm_compute. repeat split; reflexivity. Qed.
+
 (** Non-vacuity: a concrete history with a join, an address change, a leave and a rejoin,
     read by a subscriber created after the first publication, meets the hypotheses of
     [C16_events_add_up]; and a late + slow subscriber does not. *)
